@@ -153,8 +153,9 @@ class LiteDRAMAvalonMM2Native(LiteXModule):
                 )
             ).Else(
                 avalon.waitrequest.eq(1),
-                # Wait for the FIFO to be empty
-                If((cmd_fifo.level == 0) & (wdata_fifo.level == 1) & port.wdata.ready,
+                # Wait for the FIFO to be empty (at the end of the burst only: the master is allowed
+                # to de-assert write between the beats of a burst).
+                If((burst_count == 0) & (cmd_fifo.level == 0) & (wdata_fifo.level == 1) & port.wdata.ready,
                     NextState("START")
                 )
             ),
